@@ -25,10 +25,11 @@ def run(ctx):
         key = "%s/%s/%s" % (ev.get("ev"), ev.get("kind"), ev.get("path"))
         ctx.violation(key + ":" + json.dumps(ev.get("v", ev.get("b"))),
                       "number codec event rejected by Numbers.tla", d)
-    # numbers inside long runs of one drawing verb (batches beyond an opcode's repeat limit): what is written must
+    # numbers inside whole programs (special values, custom and sub-unit viewBoxes, both resolutions) and inside long runs
+    # of one drawing verb (batches beyond an opcode's repeat limit): what is written must
     # read back as what was passed, number by number (TV_RoundTrip: quantisation / tolerance predicates of Numbers.tla)
     from lib import enccheck
-    lr = enccheck.run_enc_traces(ctx, ["runs", "longruns"], 40 if quick else 2000, ["err"], want=("rt",), sub="runs")
+    lr = enccheck.run_enc_traces(ctx, ["runs", "longruns", "wellformed"], 150 if quick else 6000, ["err"], want=("rt",), sub="runs")
     for d in lr["diags"]["rt"]:
         ctx.violation("runs:%s:%s" % (d.get("diag"), d.get("id")), "numbers of a long run do not read back", enccheck.trim(d))
     sweep = None
